@@ -21,7 +21,7 @@ TECHNIQUE = "small-scope exhaustive enumeration of Accept headers x offer lists 
 DESIGN_REF = "DESIGN.md §4 C17"
 RULE = (
     "headers = every ordered list of 1..2 items (range x q) with range from the family's set and q in {absent, 0, 0.001, "
-    "0.5, 1, 1.000, x, -1, 1.5}, every ordered list of 3 items with q in {absent, 0, 0.5} (thorough: all), plus 12 "
+    "0.5, 1, 1.000, x, -1, 1.5}, every ordered list of 3 items with q in {absent, 0, 0.5, 1.5} (thorough: all), plus 12 "
     "spacing / case renderings and 21 further q spellings (exponents, signs, underscores, hex, leading zeros, 1.001, "
     "2, 10, 1.0 ...); offers = every non-empty ordered list of <= 3 distinct offers from the family's 5-6; 11 families: "
     "media types (exact, level parameter, type/*, */*, case), media types with several / quoted / differently ordered "
@@ -59,7 +59,8 @@ from werkzeug.http import parse_accept_header  # noqa: E402
 
 QS = [None, "0", "0.001", "0.5", "1", "1.000", "x", "-1", "1.5"]
 QS_SMALL = [None, "0", "0.5"]
-QS_P = [None, "0", "0.5", "1.5"]          # the parameter / subtag families
+QS_P = [None, "0", "0.5", "1.5"]          # the parameter / subtag families; 3-item headers in quick
+Q3 = {"small": QS_SMALL, "p": QS_P, "full": QS}
 # RFC tokens only: a q value that is not even a token (empty, non-ASCII digits, a lone quote) makes
 # parse_options_header drop the *parameter* ("invalid parts are skipped"), so the item is kept with q=1 - whether
 # that counts as "malformed q -> item ignored" is not clear from the statement, so such forms are not generated.
@@ -327,16 +328,15 @@ def units(tier):
         us.append(("h1", fam))
         for i in range(n1):
             us.append(("h2", fam, i))
-        qs3 = (QS_P if small else QS) if T else QS_SMALL
-        n3 = len(f["ranges"]) * len(qs3)
+        # 3-item headers: thorough = every q form (QS_P for the small families); quick = QS_P for the main families
+        qname = ("p" if small else "full") if T else ("small" if small else "p")
+        n3 = len(f["ranges"]) * len(Q3[qname])
         for i in range(n3):
-            if small and not T:
-                continue          # the parameter / subtag families: 3-item headers only in thorough
             if T:
                 for j in range(0, n3, 9):
-                    us.append(("h3", fam, i, (j, min(n3, j + 9)), True))
+                    us.append(("h3", fam, i, (j, min(n3, j + 9)), qname))
             else:
-                us.append(("h3", fam, i, (0, n3), False))
+                us.append(("h3", fam, i, (0, n3), qname))
         us.append(("forms", fam))
     return us
 
@@ -545,13 +545,12 @@ def run_unit(unit, R, tier):
             evaluate(R, fam, [a, b], offs)
         return
     if kind == "h3":
-        _k, _f, i, (j0, j1), full = unit
-        qs3 = ((QS_P if small else QS) if full else QS_SMALL)
-        items3 = [(r, q) for r in f["ranges"] for q in qs3]
+        _k, _f, i, (j0, j1), qname = unit
+        items3 = [(r, q) for r in f["ranges"] for q in Q3[qname]]
         a = items3[i]
         for b in items3[j0:j1]:
             for c in items3:
-                evaluate(R, fam, [a, b, c], offs, track=not full)
+                evaluate(R, fam, [a, b, c], offs, track=False)     # counted, not kept as a set (memory)
         return
     if kind == "forms":
         # renderings: separators, spaces before/after ';', upper-case Q
